@@ -98,6 +98,22 @@ pub fn seeds() -> Vec<String> {
         // an image whose alt text is longer than any minimum wrap width, inside prefixed blocks
         "<blockquote><img src=\"/s\" alt=\"qaqbqcqdqeqf\"></blockquote>",
         "<ul><li><ul><li><img src=\"/s\" alt=\"qaqbqcqdqeqf\"> qg</li></ul></li></ul>",
+        // composite shapes: three different block constructors nested (table in list in quote, lists / pre /
+        // quote / heading in table cells, table in table in table), and elements outside the grammar
+        // (hr, th in thead, ins, i, wbr, h1/h4/h5/h6)
+        "<blockquote><ul><li><table><tr><td>qa qb</td><td>qc</td></tr><tr><td>qd</td><td>qe qf qg</td></tr></table></li><li>qh</li></ul></blockquote>",
+        "<table><tr><td><ul><li>qa qb qc</li><li>qd</li></ul></td><td><ol start=9><li>qe</li><li>qf qg</li></ol></td></tr></table>",
+        "<table><tr><td><pre>qa  qb\n\tqc</pre></td><td>qd qe</td></tr></table>",
+        "<table><tr><td><blockquote>qa qb <em>qc</em></blockquote></td><td><h2>qd qe</h2>qf</td></tr></table>",
+        "<ul><li><blockquote><pre>qa qb  qc\nqd</pre></blockquote>qe</li></ul>",
+        "<p>qa</p><hr><p>qb</p><ul><li>qc<hr>qd</li></ul><blockquote><hr></blockquote>",
+        "<table><thead><tr><th>qa qb</th><th>qc</th></tr></thead><tr><td><a href=\"/1\">qd qe</a></td><td><ul><li>qf</li></ul></td></tr></table>",
+        "<p>qa <ins>qb qc</ins> <i>qd</i> qe<wbr>qf qgqgqgqgqgqg<wbr>qhqhqhqhqh</p>",
+        "<dl><dt>qa</dt><dd><ul><li><table><tr><td>qb</td><td>qc qd</td></tr></table></li></ul></dd></dl>",
+        "<ol><li><table><tr><td><ol start=99><li>qa qb</li><li>qc</li></ol></td></tr></table>qd</li><li>qe</li></ol>",
+        "<blockquote><blockquote><blockquote><h1>qa qb qc</h1><p>qd <a href=\"/1\">qe</a> <a href=\"/2\">qf qg</a></p></blockquote></blockquote></blockquote>",
+        "<table><tr><td><table><tr><td><table><tr><td>qa qb</td><td>qc</td></tr></table></td><td>qd</td></tr></table></td><td>qe qf</td></tr></table>",
+        "<div><p>qa</p><div><div><p>qb</p></div>qc</div><h4>qd</h4><h5>qe</h5><h6>qf <strong>qg</strong></h6></div>",
     ]
     .iter()
     .map(|s| s.to_string())
